@@ -16,12 +16,13 @@ for pid in sorted(P.PROPERTIES):
             by[i.rule] = by.get(i.rule, 0) + 1
     fl = {}
     for r, n in by.items():
+        # A floor guards against a rule that silently matches (almost) nothing -- broken extraction, a renamed module --
+        # not against a maintainer merging two functions: half of the confirmed count.  Missing individual anchors are
+        # reported by the rules themselves.
         if r in LOW:
             fl[r] = min(n, LOW[r])
-        elif r in EXACT:
-            fl[r] = n
         else:
-            fl[r] = max(1, int(n * 0.9))
+            fl[r] = max(1, n // 2)
     out[pid] = fl
 json.dump(out, open(os.path.join(HERE, 'floors.json'), 'w'), indent=1, sort_keys=True)
 print(json.dumps(out, sort_keys=True))
